@@ -614,6 +614,7 @@ func Generate(seed uint64, profile string, faults bool) *Scenario {
 	}
 	sort.Strings(kinds)
 	scheduled := 0
+	var prevAuth []Op
 	for c := 0; c < nClients; c++ {
 		var prog []Op
 		for i := 0; i < opsPer; i++ {
@@ -648,6 +649,13 @@ func Generate(seed uint64, profile string, faults bool) *Scenario {
 				op.Defs = g.n(len(sc.Defs))
 			case "http":
 				genAuthOp(g, &op, scheduled)
+				if len(prevAuth) > 0 && g.p(350) {
+					// the same token again (same claims give the same string): a verifier that remembers tokens sees it
+					// twice while it is valid and once more after it has expired
+					q := prevAuth[g.n(len(prevAuth))]
+					op.Cred, op.ExpS, op.NbfS, op.IatS, op.Transport = q.Cred, q.ExpS, q.NbfS, q.IatS, q.Transport
+				}
+				prevAuth = append(prevAuth, op)
 			}
 			if cfg.HTTP && g.p(400) && (kind == "schedule" || kind == "cancel" || kind == "read" || kind == "list") {
 				op.HTTP = true
